@@ -52,14 +52,21 @@ func (e *unaryMathExpr) Merge(b []byte, x []byte, y []byte) ([]byte, []byte, []b
 }
 
 func (e *unaryMathExpr) SubMergers(subs []Expr) []SubMerge {
-	ssms := e.Wrapped.SubMergers(subs)
-	sms := make([]SubMerge, len(subs))
+	// Values are stored like the wrapped expression's values. If there's a
+	// column that holds this expression itself, merge from that using the
+	// wrapped expression's way of merging ...
 	for i, sub := range subs {
 		if e.String() == sub.String() {
-			sms[i] = ssms[i]
+			sms := make([]SubMerge, len(subs))
+			if own := e.Wrapped.SubMergers([]Expr{e.Wrapped}); len(own) == 1 {
+				sms[i] = own[0]
+			}
+			return sms
 		}
 	}
-	return ssms
+	// ... otherwise from the columns that the wrapped expression is derived
+	// from.
+	return e.Wrapped.SubMergers(subs)
 }
 
 func (e *unaryMathExpr) Get(b []byte) (float64, bool, []byte) {
